@@ -1480,6 +1480,9 @@ func funcAllocator(any, []any) any {
 }
 
 func (a allocator) allocated(v any) bool {
+	if verifOff(verifOptInPlace) {
+		return false
+	}
 	_, ok := a[reflect.ValueOf(v).Pointer()]
 	return ok
 }
